@@ -265,8 +265,66 @@ def no_monkeypatching(rep: Report) -> None:
                     and isinstance(node.args[0], ast.Name) and node.args[0].id in aliases:
                 n += 1
                 rep.fail("R16.11", f"{short}:{ast.unparse(node)[:40]}", f"{short} patches the generated parser module with {node.func.id}()", f"{rel(path)}:{node.lineno}")
+        # ... or reaches into the objects the generated module hands out (the tables DATA / MEMO, the parser built from
+        # them, its lexer and terminals) and changes them in place: taint from `_parser.<x>` / the module-level parser object
+        roots = set(aliases)
+        for st in t.body:
+            if isinstance(st, (ast.Assign, ast.AnnAssign)) and getattr(st, "value", None) is not None:
+                r0 = st.value
+                while isinstance(r0, (ast.Attribute, ast.Call, ast.Subscript)):
+                    r0 = r0.func if isinstance(r0, ast.Call) else r0.value
+                if isinstance(r0, ast.Name) and r0.id in aliases:
+                    for tg in (st.targets if isinstance(st, ast.Assign) else [st.target]):
+                        if isinstance(tg, ast.Name):
+                            roots.add(tg.id)
+        for node in ast.walk(t):
+            if isinstance(node, ast.ImportFrom) and (node.module or "").endswith("parsing"):
+                roots |= {a.asname or a.name for a in node.names if a.name == "parser"}
+
+        def rooted(e: ast.AST, tainted: set) -> bool:
+            while isinstance(e, (ast.Attribute, ast.Call, ast.Subscript, ast.Starred)):
+                e = e.func if isinstance(e, ast.Call) else e.value
+            if isinstance(e, (ast.List, ast.Tuple, ast.Set)):
+                return any(rooted(x, tainted) for x in e.elts)
+            return isinstance(e, ast.Name) and e.id in tainted
+        for fn in [x for x in ast.walk(t) if isinstance(x, (ast.FunctionDef, ast.AsyncFunctionDef))] + [t]:
+            body_nodes = list(ast.walk(fn)) if fn is not t else [x for st in t.body if not isinstance(st, (ast.FunctionDef, ast.ClassDef, ast.AsyncFunctionDef)) for x in ast.walk(st)]
+            tainted = set(roots)
+            grew = True
+            while grew:
+                grew = False
+                for x in body_nodes:
+                    pairs = []
+                    if isinstance(x, ast.Assign):
+                        pairs = [(tg, x.value) for tg in x.targets]
+                    elif isinstance(x, ast.AnnAssign) and x.value is not None:
+                        pairs = [(x.target, x.value)]
+                    elif isinstance(x, (ast.For, ast.comprehension)):
+                        pairs = [(x.target, x.iter)]
+                    elif isinstance(x, ast.NamedExpr):
+                        pairs = [(x.target, x.value)]
+                    for tg, v in pairs:
+                        if rooted(v, tainted):
+                            for nm in ast.walk(tg):
+                                if isinstance(nm, ast.Name) and isinstance(nm.ctx, ast.Store) and nm.id not in tainted and nm.id not in roots:
+                                    tainted.add(nm.id)
+                                    grew = True
+            for x in body_nodes:
+                tg_list = x.targets if isinstance(x, (ast.Assign, ast.Delete)) else ([x.target] if isinstance(x, (ast.AugAssign, ast.AnnAssign)) else [])
+                for tg in tg_list:
+                    for y in (tg.elts if isinstance(tg, (ast.Tuple, ast.List)) else [tg]):
+                        if isinstance(y, (ast.Attribute, ast.Subscript)) and rooted(y.value, tainted) and not (isinstance(y, ast.Attribute) and isinstance(y.value, ast.Name) and y.value.id in aliases):
+                            n += 1
+                            rep.fail("R16.11", f"{short}:{ast.unparse(y)[:50]}", f"{short} writes `{ast.unparse(y)[:60]}`, an object handed out by the generated parser module "
+                                     "(its tables, the parser built from them, a terminal or a lexer): the running parser no longer is the one the tables "
+                                     "compared with the grammar describe", f"{rel(path)}:{x.lineno}")
+                if isinstance(x, ast.Call) and isinstance(x.func, ast.Attribute) and x.func.attr in ("update", "append", "extend", "insert", "pop", "remove", "clear", "setdefault", "sort", "reverse", "__setitem__", "add", "discard") \
+                        and rooted(x.func.value, tainted) and not (isinstance(x.func.value, ast.Name) and x.func.value.id in tainted - roots and False):
+                    n += 1
+                    rep.fail("R16.11", f"{short}:{ast.unparse(x)[:50]}", f"{short} mutates `{ast.unparse(x.func.value)[:50]}`, an object handed out by the generated parser module, "
+                             f"in place (.{x.func.attr})", f"{rel(path)}:{x.lineno}")
     if n == 0:
-        rep.ok("R16.11", "package", note="no module assigns into measured._parser")
+        rep.ok("R16.11", "package", note="no module assigns into measured._parser or into an object it hands out")
 
 
 def parser_wiring(rep: Report, tree: ast.Module) -> None:
